@@ -589,7 +589,7 @@ def gen_cases(ck):
     rng = Rng(ck.seed)
     quick = ck.tier == "quick"
     cases = boundary_cases()
-    n = 3600 if quick else 45000
+    n = 3600 if quick else 60000
     fams = [("overlap", sys_overlap), ("struct", sys_struct), ("selector", sys_selector)]
     for k in range(n):
         fam, mk = fams[k % 3]
@@ -672,6 +672,7 @@ def evaluate(ck, binary, cases):
         cases[i] = small
         impl[i] = ck.run_impl(binary, [small.line])[0]
         model[i] = ck.run_model_terms(["Cache"], [small.term])[0]
+        small.meta["fam"] = "minimised"
     for c, o in zip(cases, impl):
         RAW[c.line] = o
     impl_c = [canon_impl(o, c.line) for c, o in zip(cases, impl)]
@@ -704,7 +705,7 @@ def main():
         ops, _, _ = info_of_line(c.line)
         print("history  :", " ".join(":".join(o) for o in ops))
         print("xml      :", bytes.fromhex(c.line.split()[1][1:]).decode().split("</RegisterDescription>")[0].split(">", 1)[1][:3000])
-        print("impl     :", _clip(impl[0], 400))
+        print("impl     :", _clip(canon_impl(impl[0], c.line), 400))
         print("model    :", _clip(model[0], 400))
         print("predicate:", predicate(c, impl[0]) or "holds")
         RAW[c.line] = impl[0]
@@ -713,10 +714,11 @@ def main():
     cases = gen_cases(ck)
     ck.phase("generate")
     impl, model = evaluate(ck, binary, cases)
-    for fam in ("boundary", "overlap", "struct", "selector"):
+    for fam in ("minimised", "boundary", "overlap", "struct", "selector"):
         idx = [i for i, c in enumerate(cases) if c.meta["fam"] == fam]
         ck.compare([cases[i] for i in idx], [impl[i] for i in idx], [model[i] for i in idx], full_predicate, nontrivial,
-                   correspondence="model/Cache.v run_both vs the two runs of the real code", family=fam)
+                   correspondence="model/Cache.v run_both vs the two runs of the real code", family=fam,
+                   max_report=3 if fam == "minimised" else 1)
     nops = sum(len(c.meta["ops"]) for c in cases)
     ck.dist["operations"] = nops
     ck.dist["histories_with_rejection"] = sum(any(o[0] == "rej" for o in c.meta["ops"]) for c in cases)
